@@ -42,7 +42,7 @@ CLAIM = {
             "parsed report is never merged with what follows; (T7) the cursor / mouse / DECRPM / text-area report grammars equal their documented forms, the "
             "payload slice is exactly the numbers, and the n-th number reaches the documented field (row before col, column;row for the mouse, height before "
             "width, mode then status). NOT decided: value-level copying of numeric fields for every value (number_decode, the iterator plumbing, overflow), "
-            "the payloads of OSC colour / termcap / kitty image / device attribute / bracketed paste reports, wheel direction naming (library-defined), and the "
+            "the rest of the payloads of OSC colour / termcap / kitty image / device attribute / bracketed paste reports, wheel direction naming (library-defined), and the "
             "decoder loop that concatenates events (C03).",
     "technique": "folded key table and grammars (sa.grammar) against hand-written reference tables, MIR def-chasing (enum lists, discriminant comparison, order of "
                  "Iterator::next calls), bit provenance (sa.bitflow), exhaustive denotational evaluation of small source functions (sa.consteval), DFA queries "
@@ -1379,6 +1379,76 @@ def t7(ctx):
 
 
 # =====================================================================================================================
+
+# =====================================================================================================================
+# T8  OSC colour report components (rgb:h/hh/hhh/hhhh)
+# =====================================================================================================================
+def t8_color(ctx, it):
+    """parse_color's component conversion, evaluated over all 1-, 2-, 3-digit values and, for 4 digits, every high byte with the low bytes
+    00 01 7f 80 fe ff: an n-digit component (n >= 2) yields its most significant 8 bits, one digit h yields hh — the convention of the
+    12-bit arm, and the one that returns exactly the 8-bit value a terminal replicates into 16 bits"""
+    from ..consteval import Frame
+    src = ctx.src
+    ctx.rule("T8-COLOR-COMPONENT", "parse_color: an n-digit hex component yields its most significant 8 bits (n = 2, 3, 4) resp. hh for a single digit h; "
+                                   "0 and 5+ digits are rejected", floor=4)
+    r = src.fn("parse_color", file=DEC)
+    items = [x["item"] for x in (r[1]["body"]["stmts"] if r else []) if x.get("k") == "item" and x["item"].get("name") == "parse_component"]
+    if len(items) != 1:
+        ctx.anchor("T8-COLOR-COMPONENT", "decoder::parse_color/parse_component")
+        return
+    item = items[0]
+    site = ["%s:%d" % (DEC, item["line"])]
+    it.extern_fns["usize::from_str_radix"] = lambda a: EnumOk(int(a[0], a[1])) if re.fullmatch(r"[0-9a-fA-F]+", a[0]) else EnumErr()
+    it.extern_methods["len"] = lambda recv, args: len(recv) if isinstance(recv, (str, list, tuple)) else _unsup("len on %r" % type(recv).__name__)
+    it.extern_methods["clamp"] = lambda recv, args: min(max(recv, args[0]), args[1])
+    it.extern_methods["ok"] = lambda recv, args: some(recv.value) if isinstance(recv, EnumOk) else NONE
+
+    def ev(text):
+        return it.call_item(item, None, [text], file=DEC, memo=False)
+
+    for n in (1, 2, 3, 4):
+        if n < 4:
+            vals = range(16 ** n)
+        else:
+            vals = [hi << 8 | lo for hi in range(256) for lo in (0x00, 0x01, 0x7f, 0x80, 0xfe, 0xff)]
+        bad = None
+        cnt = 0
+        try:
+            for v in vals:
+                text = "%0*x" % (n, v)
+                want = some(v * 17 if n == 1 else v >> (4 * (n - 2)))
+                got = ev(text)
+                cnt += 1
+                if got != want:
+                    bad = (text, got, want)
+                    break
+        except Unsupported as ex:
+            ctx.anchor("T8-COLOR-COMPONENT", "decoder::parse_color/eval", "parse_component not evaluable for %d digits: %s" % (n, ex))
+            return
+        ctx.instance("T8-COLOR-COMPONENT", {"digits": n, "values_evaluated": cnt, "first_mismatch": None if bad is None else "%s -> %r, expected %r" % bad})
+        if bad is not None:
+            ctx.violation("T8-COLOR-COMPONENT", "decoder::parse_color", "digits-%d" % n,
+                          "component `%s` of an `rgb:` colour report decodes to %r, its most significant 8 bits are %r (the other digit counts truncate; "
+                          "`rgb:%s/..` is not reported as the transmitted colour)" % (bad[0], bad[1], bad[2], bad[0]), sites=site)
+    for text in ("", "fffff"):
+        try:
+            got = ev(text)
+        except Unsupported as ex:
+            ctx.anchor("T8-COLOR-COMPONENT", "decoder::parse_color/eval", "parse_component not evaluable for %r: %s" % (text, ex))
+            return
+        if got != NONE:
+            ctx.violation("T8-COLOR-COMPONENT", "decoder::parse_color", "digits-%d" % len(text), "a component with %d digits is accepted (%r)" % (len(text), got), sites=site)
+
+
+class EnumOk:
+    def __init__(self, value):
+        self.value = value
+
+
+class EnumErr:
+    pass
+
+
 def run(ctx):
     ctx.explanation = (
         "Decided (tables and layouts, each row / bit / state enumerated): T1 the folded key table of basic_events_nfa is a function and agrees with the "
@@ -1387,9 +1457,10 @@ def run(ctx):
         "and the SGR colour arms (named colours for every code 0..255, all 256 palette indices); T4 kitty functional keys, private-use block, modifier "
         "field; T5 SGR mouse bit layout (provenance + complete enumeration over the used bits x M/m) and UTF-8 bit assembly vs RFC 3629; T6 only "
         "key-table states of the tagged union automaton are extendable (a complete parsed report is never merged with what follows); T7 the four numeric "
-        "report grammars equal their documented forms and the n-th payload number reaches the documented field. NOT decided: that numeric field values "
+        "report grammars equal their documented forms and the n-th payload number reaches the documented field; T8 the `rgb:` colour component conversion "
+        "of OSC colour reports (all 1-3 digit values, all high bytes of 4-digit values). NOT decided: that numeric field values "
         "are copied unchanged for every value (number_decode, iterator plumbing and overflow behaviour are value-level: C02 covers their safety), "
-        "the payloads of OSC colour / termcap / kitty image / device attribute / bracketed paste reports, and the decoder loop itself (C03).")
+        "the rest of the payloads of OSC colour / termcap / kitty image / device attribute / bracketed paste reports, and the decoder loop itself (C03).")
     ctx.assume("a reference row constrains only byte strings / codes the repository also maps; the wheel direction names are the library's own (its test pins 65 -> MouseWheelUp)")
     ctx.trust("numbers_decode-model", "T5's enumeration models numbers_decode as: split at the separator, keep the pieces that are decimal numbers, in order (C02 checks number_decode itself)")
     ctx.trust("sa/grammar.py fold", "the key table and grammars are the denotation of decoder.rs computed by sa.grammar (validated by C15's rules)")
@@ -1401,7 +1472,7 @@ def run(ctx):
         ctx.anchor("T1-KEYMOD", "keys::KeyMod/constants", "KeyMod's constants not evaluable: %s" % ex)
         consts = {}
     parts = [("T1", lambda: t1(ctx, it, consts)), ("T2", lambda: t2(ctx)), ("T3", lambda: t3(ctx, it)), ("T4", lambda: t4(ctx, it, consts)),
-             ("T5-MOUSE", lambda: t5_mouse(ctx, it, consts)), ("T5-UTF8", lambda: t5_utf8(ctx)), ("T6", lambda: t6(ctx)), ("T7", lambda: t7(ctx))]
+             ("T5-MOUSE", lambda: t5_mouse(ctx, it, consts)), ("T5-UTF8", lambda: t5_utf8(ctx)), ("T6", lambda: t6(ctx)), ("T7", lambda: t7(ctx)), ("T8", lambda: t8_color(ctx, it))]
     for name, fn in parts:
         try:
             fn()
